@@ -1,5 +1,6 @@
 """C02 Map lanes: every subscriber's replica converges to the lane's map."""
-from mirlib import AnchorMissing, describe_call, describe_operand, describe_place, describe_rvalue, dom_guards, guards, decision_paths, _suffix_match
+import re
+from mirlib import AnchorMissing, describe_call, describe_operand, describe_place, describe_rvalue, dom_guards, guards, decision_paths, switch_desc, _suffix_match
 from rules import uplinks
 from rules.common import answers_only_with, guards_with_sources, success_edge, aggregates, callers_by_name, crate_aggregates, owner_def, where
 
@@ -21,6 +22,55 @@ AG = "swimos_agent"
 RT = "swimos_runtime"
 
 
+def _to_deque_loop_table(td):
+    """to_deque written as a loop over `it.enumerate()`: which keys are kept, by (kind, position < number), read off the paths of one iteration.
+    Drop keeps a key exactly when it is among the first n (= take), Take exactly when it is not (= skip)."""
+    nx = [c for c in td.calls if c.via_name == "next" and "enumerate(" in describe_operand(td, c.args[0])]
+    pbs = {c.block for c in td.calls if c.name in ("push_back", "push") and c.args and len(c.args) == 2}
+    if len(nx) != 1 or not pbs:
+        return {}
+    start = success_edge(td, nx[0], "Some")
+    if start is None:
+        return {}
+    kept = set()
+    stack = [(start, None, None, (start,))]
+    n = 0
+    while stack and n < 5000:
+        n += 1
+        b, kind, lt, trail = stack.pop()
+        if b in pbs:
+            kept.add((kind, lt))
+            continue
+        if b == nx[0].block or not td.succ[b]:
+            continue
+        t = td.term(b)
+        if t["k"] == "switch":
+            d = switch_desc(td, b) or ""
+            if d == "disc(kind)":
+                for nm, tbk in (td.variant_edges(b) or {}).items():
+                    if kind in (None, nm) and tbk not in trail:
+                        stack.append((tbk, nm, lt, trail + (tbk,)))
+                continue
+            m = re.match(r"^(Lt|Ge)\(next\(.*\)<Some>\.0\.0, number\)$", d) or re.match(r"^(Gt|Le)\(number, next\(.*\)<Some>\.0\.0\)$", d)
+            if m and len(t["arms"]) == 1 and int(t["arms"][0][0]) == 0:
+                pos = m.group(1) in ("Lt", "Gt")
+                for val, tbk in ((False, t["arms"][0][1]), (True, t["otherwise"])):
+                    in_prefix = val if pos else not val
+                    if lt in (None, in_prefix) and tbk not in trail:
+                        stack.append((tbk, kind, in_prefix, trail + (tbk,)))
+                continue
+        for s_ in td.succ[b]:
+            if s_ not in trail and not td.is_cleanup(s_):
+                stack.append((s_, kind, lt, trail + (s_,)))
+    if any(k is None or l is None for k, l in kept):
+        return {"?": "kept whatever the kind / position (%s)" % sorted(map(str, kept))}
+    tb = {}
+    for k in ("Drop", "Take"):
+        ls = {l for kk, l in kept if kk == k}
+        tb[k] = "take" if ls == {True} else "skip" if ls == {False} else "keeps %s" % sorted(ls)
+    return tb
+
+
 def queue_rules(r, ctx, crate, adt, qfield, tag, regex):
     push = ctx.saw(crate.fn(name="push", self_adt=adt, regex=regex + r"::push$"))
     pop = ctx.saw(crate.fn(name="pop", self_adt=adt, regex=regex + r"::pop$"))
@@ -30,10 +80,25 @@ def queue_rules(r, ctx, crate, adt, qfield, tag, regex):
         v = [l for d, l, _ in g if d == opv]
         return v[0] if v else None
 
+    # the edges on which the pushed operation is an Update / a Remove (the two may share everything after them: `(key, Some(value))` / `(key, None)`)
+    arm_edge, vidx = {}, {}
+    for sb in range(push.n):
+        if push.term(sb)["k"] == "switch" and not push.is_cleanup(sb) and switch_desc(push, sb) == opv:
+            for nm, tb in (push.variant_edges(sb) or {}).items():
+                arm_edge.setdefault(nm, tb)
+            vidx = {nm: k for k, nm in ((push.switch_info(sb) or {}).get("names") or {}).items()}
+    reach = {v: (push.reachable_cp([arm_edge[v]]) if v in arm_edge else set()) for v in ("Update", "Remove")}
+
+    def on_arm(c_block, v):
+        a = arm(dom_guards(push, c_block))
+        return a == v or (a is None and c_block in reach[v])
+
+    def is_variant(v, block, operand, text):
+        return ("::%s(" % v) in text or (v in arm_edge and v in vidx and push.variants_at([arm_edge[v]], block, operand) == {vidx[v]})
     # keyed variants
     for v in ("Update", "Remove"):
-        pbs = [c for c in push.calls if c.name == "push_back" and describe_operand(push, c.args[0]).endswith("." + qfield) and arm(dom_guards(push, c.block)) == v]
-        inss = [c for c in push.calls if c.name == "insert" and describe_operand(push, c.args[0]).endswith(".epoch_map") and arm(dom_guards(push, c.block)) == v]
+        pbs = [c for c in push.calls if c.name == "push_back" and describe_operand(push, c.args[0]).endswith("." + qfield) and on_arm(c.block, v)]
+        inss = [c for c in push.calls if c.name == "insert" and describe_operand(push, c.args[0]).endswith(".epoch_map") and on_arm(c.block, v)]
         if len(pbs) != 1 or len(inss) != 1:
             r.bad("%s/push/%s/append-pair" % (tag, v), where(push), "expected one push_back and one epoch_map.insert on the %s arm, found %d and %d" % (v, len(pbs), len(inss)))
             continue
@@ -52,27 +117,35 @@ def queue_rules(r, ctx, crate, adt, qfield, tag, regex):
                 "epoch = head_epoch.wrapping_add(%s.len()) with len read before the push (%s)" % (qfield, ep[:60]), "recorded epoch is %s (len read after the push or not head_epoch + len): later replacements hit the wrong slot" % ep[:80])
         key = describe_operand(push, ins.args[1])
         ent = describe_operand(push, pb.args[1])
-        r.check((("::%s(" % v) in ent), "%s/push/%s/entry-variant" % (tag, v), pb.loc(), "appended entry is %s for the pushed key" % v, "appended entry %s / indexed key %s" % (ent[:60], key[:40]))
-    # in-place replacement
-    reps = [(i, j, p, rv, line, describe_rvalue(push, rv)) for i, j, p, rv, line in push.assigns() if p[1] == ["*"] and describe_rvalue(push, rv).startswith("MapOperation::")]
+        r.check(is_variant(v, pb.block, pb.args[1], ent), "%s/push/%s/entry-variant" % (tag, v), pb.loc(), "appended entry is %s for the pushed key" % v, "appended entry %s / indexed key %s" % (ent[:60], key[:40]))
+    # in-place replacement: `*slot = MapOperation::X {..}`, or `*slot = <an operation put together elsewhere>`
+    def op_typed(rv):
+        return rv[0] == "use" and rv[1][0] in ("c", "m") and not rv[1][1][1] and rv[1][1][0] < len(push.locals) and "MapOperation<" in push.locals[rv[1][1][0]]
+    reps = [(i, j, p, rv, line, describe_rvalue(push, rv)) for i, j, p, rv, line in push.assigns() if p[1] == ["*"] and (describe_rvalue(push, rv).startswith("MapOperation::") or op_typed(rv))]
     n_rep = 0
     seen_rep = set()
     for i, j, p, rv, line, d in reps:
         if push.is_cleanup(i):
             continue
-        v = arm(dom_guards(push, i))
-        if (v, line) in seen_rep:
-            continue
-        seen_rep.add((v, line))
-        n_rep += 1
-        got = d.split("MapOperation::")[1].split("(")[0]
-        r.check(got == v, "%s/push/%s/replace-in-place-variant" % (tag, v), push.loc(line), "a queued entry is replaced by the new %s" % got, "%s arm overwrites the slot with %s" % (v, got))
-        kd = d.split("(", 1)[1] if "(" in d else ""
-        r.check(("<%s>" % v) in kd or "key" in kd or "try_from(" in kd, "%s/push/%s/replace-same-key" % (tag, v), push.loc(line), "the replacement carries the pushed key (%s)" % kd[:50], "the replacement carries %s" % kd[:60])
-        # no append / no index change on the replace edge
-        after = push.reachable_from([i])
-        bad = [c for c in push.calls if c.block in after and c.name in ("push_back", "insert", "remove") and (describe_operand(push, c.args[0]).endswith("." + qfield) or describe_operand(push, c.args[0]).endswith(".epoch_map"))]
-        r.check(not bad, "%s/push/%s/replace-keeps-index" % (tag, v), push.loc(line), "replacement in place leaves queue length and index untouched", "replacement path also changes the queue/index: %s" % [c.name for c in bad])
+        a_ = arm(dom_guards(push, i))
+        for v in ([a_] if a_ is not None else [x for x in ("Update", "Remove") if i in reach[x]]):
+            if (v, line) in seen_rep:
+                continue
+            seen_rep.add((v, line))
+            n_rep += 1
+            if d.startswith("MapOperation::"):
+                got = d.split("MapOperation::")[1].split("(")[0]
+                kd = d.split("(", 1)[1] if "(" in d else ""
+            else:
+                # every way the value can have been put together on this arm
+                got = v if is_variant(v, i, rv[1], "") else "another variant than %s" % v
+                kd = " ".join(sorted({str(x[1]) for x in push.sources(rv[1], stop_at_calls=False) if x[0] in ("field", "param", "local")} | {describe_operand(push, rv[1])}))
+            r.check(got == v, "%s/push/%s/replace-in-place-variant" % (tag, v), push.loc(line), "a queued entry is replaced by the new %s" % got, "%s arm overwrites the slot with %s" % (v, got))
+            r.check(("<%s>" % v) in kd or "key" in kd or "try_from(" in kd, "%s/push/%s/replace-same-key" % (tag, v), push.loc(line), "the replacement carries the pushed key (%s)" % kd[:50], "the replacement carries %s" % kd[:60])
+            # no append / no index change on the replace edge
+            after = push.reachable_from([i])
+            bad = [c for c in push.calls if c.block in after and c.name in ("push_back", "insert", "remove") and (describe_operand(push, c.args[0]).endswith("." + qfield) or describe_operand(push, c.args[0]).endswith(".epoch_map"))]
+            r.check(not bad, "%s/push/%s/replace-keeps-index" % (tag, v), push.loc(line), "replacement in place leaves queue length and index untouched", "replacement path also changes the queue/index: %s" % [c.name for c in bad])
     if n_rep < 2:
         r.bad("%s/push/replace-in-place-sites" % tag, where(push), "expected in-place replacement for Update and Remove, found %d" % n_rep)
     # slot lookup closure: index = epoch - head_epoch
@@ -84,8 +157,8 @@ def queue_rules(r, ctx, crate, adt, qfield, tag, regex):
             nidx += 1
             d = describe_operand(cb, c.args[1])
             r.check(d.startswith("wrapping_sub(") and "epoch" in d and "head_epoch" in d, "%s/push/slot-index" % tag, c.loc(), "slot = %s.get_mut(epoch - head_epoch)" % qfield, "slot index is %s" % d[:60])
-    if nidx < 2:
-        r.bad("%s/push/slot-index-sites" % tag, where(push), "expected 2 slot look-ups, found %d" % nidx)
+    if nidx < 1:
+        r.bad("%s/push/slot-index-sites" % tag, where(push), "no look-up of the slot of an already queued key")
     # clear
     clr_q = [c for c in push.calls if c.name == "clear" and describe_operand(push, c.args[0]).endswith("." + qfield)]
     clr_m = [c for c in push.calls if c.name == "clear" and describe_operand(push, c.args[0]).endswith(".epoch_map")]
@@ -262,8 +335,9 @@ def run(ctx):
             g_ok = g_ok or any("ORDERED_KEYS" in d and l == "false" for d, l, _ in g)
         r.check(len(srt) == 1 and g_ok, "drop_or_take/sort-iff-unordered", where(dt), "keys are sorted exactly when M::ORDERED_KEYS is false", "sorting is not conditional on !ORDERED_KEYS")
         cls = ag.closures_of(dt.defpath)
-        has_struct = any(c.via_name == "structure" for cb in cls for c in cb.calls)
-        has_cmp = any(c.via_name == "cmp" and "Value" in (c.callee.get("self_ty") or c.callee.get("arg0_ty") or c.defpath) for cb in cls for c in cb.calls)
+        # (in the comparator itself, or computed once per key before the sort - `sort_by_cached_key`, a vector of (structure, key) pairs)
+        has_struct = any(c.via_name == "structure" for cb in list(cls) + [dt] for c in cb.calls)
+        has_cmp = any(c.via_name == "cmp" and "Value" in (c.callee.get("self_ty") or c.callee.get("arg0_ty") or c.defpath) for cb in list(cls) + [dt] for c in cb.calls)
         r.check(has_struct and has_cmp, "drop_or_take/recon-order", where(dt), "the comparator compares StructuralWritable::structure() images with Value::cmp", "the sort no longer compares the Recon structure of the keys")
         td = ctx.saw(ag.fn(suffix="map_storage::to_deque"))
         tb = {}
@@ -271,6 +345,8 @@ def run(ctx):
             if c.via_name in ("take", "skip") and "Iterator" in (c.trait or ""):
                 v = [l for d, l, _ in dom_guards(td, c.block) if d == "disc(kind)"]
                 tb[v[0] if v else "?"] = c.via_name
+        if not tb:
+            tb = _to_deque_loop_table(td)
         r.check(tb == {"Drop": "take", "Take": "skip"}, "to_deque/table", where(td), "Drop -> it.take(n) (the first n go), Take -> it.skip(n) (all but the first n go)", "to_deque table is %s" % tb)
         for path, want in (("std::collections::hash::map::HashMap", 0), ("alloc::collections::btree::map::BTreeMap", 1)):
             cs = [c for p, c in ag.consts.items() if p.endswith("ORDERED_KEYS") and path.split("::")[-1] in p]
@@ -311,7 +387,7 @@ def run(ctx):
     with ctx.rule("C02.R9", "T3", "per-remote queue: queued flag <=> queue entry (a map lane is never left unqueued with pending operations)", floor=20) as r:
         uplinks.queued_flag_discipline(r, ctx)
 
-    with ctx.rule("C02.R10", "T1+T7", "every frame is addressed with the lane it belongs to (the sender's lane name is set per frame, for the lane of that frame)", floor=15) as r:
+    with ctx.rule("C02.R10", "T1+T7", "every frame is addressed with the lane it belongs to (the sender's lane name is set per frame, for the lane of that frame)", floor=7) as r:
         uplinks.frame_lane_name(r, ctx)
 
     with ctx.rule("C02.R11", "T2", "the map lane's queues are drained: pop answers None only when nothing is queued", floor=1) as r:
